@@ -889,6 +889,7 @@ func wellFormed(v *V) bool {
 func cmpStream(r *Run) {
 	if r.Shard == 0 {
 		cmpUintptrFamily(r)
+		cmpAliasedFamily(r)
 	}
 	// (NewRNG(seed) and NewRNG(seed+1) yield the same sequence shifted by one draw, so the seed
 	// is hashed first to make the runs of different seeds independent)
